@@ -2,7 +2,7 @@ import AtreeProofs.Props.TransDescentInsert
 import AtreeProofs.Props.TransDescentSplit
 import AtreeProofs.Props.TransDescentRoute
 import AtreeProofs.Array.Top
-import AtreeProofs.Props.TransDescentEx
+import AtreeProofs.Props.TransDescentExDefs
 /-
   TRANSLATION EQUIVALENCE, the DESCENT (WP12): `Array.Insert` and `Array.Append` at the TOP LEVEL over the heap
   environment `envH T` (Trans/Descent.lean).  The nesting machinery (`incrementIndexFrom`, `notifyParentIfNeeded`,
